@@ -1430,6 +1430,42 @@ impl Simk {
                 self.fill(serial, "iovec-target", n);
                 self.finish(serial, n as i32, 0);
             }
+            OP_RECVMSG if req.pool => {
+                // Buffer select on recvmsg: at most one iovec, replaced by the selected buffer
+                // (its whole length when the iovec's length is 0).
+                let hdr = sqe.addr() as usize;
+                let m = unsafe { read_msghdr(hdr) };
+                if m.iovlen > 1 {
+                    self.finish(serial, -libc::EINVAL, 0);
+                    return;
+                }
+                let want_len = if m.iovlen == 1 && m.iov != 0 { unsafe { read_iovec(m.iov) }.1 } else { 0 };
+                match self.select_buffer(ring, sqe.buf_group()) {
+                    Err(e) => self.finish(serial, e, 0),
+                    Ok((addr, len, bid)) => {
+                        let len = if want_len == 0 { len as usize } else { want_len.min(len as usize) };
+                        let n = explicit.map_or(len, |e| (e as usize).min(len));
+                        if !is_mapped_rw(addr, len) {
+                            self.violation("pool-bad-buffer", format!("buffer ring entry bid={bid} addr={addr:#x} len={len} is not writable memory"));
+                        } else {
+                            for j in 0..n {
+                                let b = self.pattern(serial.wrapping_add(req.cqes * 101), j);
+                                unsafe { (addr as *mut u8).add(j).write_volatile(b) };
+                                self.pending_out.data.push(b);
+                            }
+                        }
+                        if m.name != 0 && m.namelen >= 16 {
+                            let sa = sockaddr_in_bytes(serial);
+                            unsafe { std::ptr::copy_nonoverlapping(sa.as_ptr(), m.name as *mut u8, 16) };
+                            unsafe { ((hdr + 8) as *mut u32).write_unaligned(16) };
+                            self.pending_out.addr = sa.to_vec();
+                        }
+                        unsafe { ((hdr + 48) as *mut i32).write_unaligned(0) };
+                        let flags = CQE_F_BUFFER | ((bid as u32) << CQE_BUFFER_SHIFT) | more_flag;
+                        self.finish(serial, n as i32, flags);
+                    }
+                }
+            }
             OP_RECVMSG => {
                 let cap = self.capacity(serial, "iovec-target", true);
                 let n = explicit.map_or(cap, |e| (e as usize).min(cap));
